@@ -528,16 +528,16 @@ func cmdCheck(args []string) int {
 	wg.Wait()
 	// obligations on which every back end ran out of time are tried once more, one at a time with
 	// the machine to themselves and a long limit: on a loaded machine (several checks running at
-	// once) a slow-but-provable obligation must not turn into an alarm. At most eight of them, so
+	// once) a slow-but-provable obligation must not turn into an alarm. At most four of them, so
 	// a tree on which many obligations fail is still reported within minutes.
 	late := 0
 	for i, r := range results {
-		if r.O.Expect != "unsat" || r.Res.Status != "timeout" || knownNames[r.O.Name] || late >= 8 {
+		if r.O.Expect != "unsat" || r.Res.Status != "timeout" || knownNames[r.O.Name] || late >= 4 {
 			continue
 		}
 		late++
 		file := filepath.Join(wd, fmt.Sprintf("q%04d.late.smt2", i))
-		r.Res = runSolvers(r.Q, file, 150*time.Second, true, nil, false, seed+2)
+		r.Res = runSolvers(r.Q, file, 100*time.Second, true, nil, false, seed+2)
 	}
 	results = append(results, structural...)
 
